@@ -179,11 +179,29 @@ type failReader struct {
 	data      []byte
 	failAfter int
 	sent      int
+	kind      string // which error
+	withData  bool   // the error comes together with the last bytes
+}
+
+func (r *failReader) err() error {
+	switch r.kind {
+	case "unexpected_eof":
+		return io.ErrUnexpectedEOF
+	case "closed_pipe":
+		return io.ErrClosedPipe
+	case "no_progress":
+		return io.ErrNoProgress
+	case "short_buffer":
+		return io.ErrShortBuffer
+	case "wrapped_eof":
+		return fmt.Errorf("connection reset: %w", io.EOF) // not io.EOF itself: io.Copy and friends compare with ==
+	}
+	return fmt.Errorf("reader failed after %d bytes", r.sent)
 }
 
 func (r *failReader) Read(p []byte) (int, error) {
 	if r.sent >= r.failAfter {
-		return 0, fmt.Errorf("reader failed after %d bytes", r.sent)
+		return 0, r.err()
 	}
 	n := r.failAfter - r.sent
 	if n > len(p) {
@@ -191,6 +209,9 @@ func (r *failReader) Read(p []byte) (int, error) {
 	}
 	copy(p, r.data[r.sent:r.sent+n])
 	r.sent += n
+	if r.withData && r.sent >= r.failAfter {
+		return n, r.err()
+	}
 	return n, nil
 }
 
@@ -394,9 +415,9 @@ func run(c *core.Case, st *core.CaseStats, seed int64) {
 			}
 		})
 	case "digeststreamerr":
-		name, n, after := argS(c, 0), argI(c, 1), argI(c, 2)
+		name, n, after, ek, style := argS(c, 0), argI(c, 1), argI(c, 2), argS(c, 3), argS(c, 4)
 		d := rb(n)
-		in := map[string]interface{}{"digest": name, "n": n, "fails_after": after}
+		in := map[string]interface{}{"digest": name, "n": n, "fails_after": after, "error": ek, "delivered": style}
 		st.Nontrivial++
 		h := hasher(name)()
 		h.Write(d)
@@ -418,7 +439,7 @@ func run(c *core.Case, st *core.CaseStats, seed int64) {
 		}
 		guard("digeststreamerr", in, func() {
 			for k := 0; k < 3; k++ {
-				if _, err := call(&failReader{data: rb(after + 5), failAfter: after}); err == nil {
+				if _, err := call(&failReader{data: rb(after + 5), failAfter: after, kind: ek, withData: style == "with_data"}); err == nil {
 					rep("stream:"+name, "value", in, "the reader's error", "nil")
 				}
 				got, err := call(bytes.NewReader(d))
